@@ -304,7 +304,7 @@ def _run(ctx, pool):
                               signature=sig, finding_ids=v["fids"])
 
     cov = dict(evaluations=stats["renderings"], distinct_nontrivial=len(nontrivial),
-               rule="TLC enumerates SqlGrammar!UniverseOf(all slices) for the tier's pools (each clause varied exhaustively within its "
+               rule="TLC enumerates every slice of the statement universe (SqlGrammar!Slice over SliceNames and SliceSizes) for the tier's pools (each clause varied exhaustively within its "
                     "bound, others at a base value, plus a combination slice); evaluations = texts parsed by the real front end "
                     "(distinct renderings of all scenarios); distinct = distinct abstract statements; non-trivial = SqlGrammar!NonTrivial: "
                     "the statement has an optional token (INNER/AS/ASC or a GROUP BY separator) or a condition tree with an AND/OR node",
